@@ -31,6 +31,11 @@ type HashRecord interface {
 
 // ::Std::HashRecord
 func initHashRecord() {
+	// `HashRecord()` creates an empty record, the implementation lives in this package
+	value.HashRecordClass.ConstructorFunc = func(class *value.Class) value.Value {
+		return value.Ref(NewHashRecordOfValue(0))
+	}
+
 	// Instance methods
 	c := &value.HashRecordClass.MethodContainer
 	Def(
